@@ -158,6 +158,8 @@ class Atom:
             return 2 * self.payload.nbytes()
         if self.kind == "b64":
             return 4 * ((self.payload.nbytes() + 2) // 3)
+        if self.kind == "rawdigest":
+            return self.payload.nbytes()
         return None
 
     def key(self):
@@ -754,6 +756,14 @@ def _content_eq_inner(c1, c2, ctx):
         r = _cut_general_eq(c1, c2)
         if r is not None:
             return r
+    # raw digest of symbolic content versus concrete raw bytes: the same question as for their hex texts
+    for x, y in ((c1, c2), (c2, c1)):
+        if len(y.segs) == 1 and isinstance(y.segs[0], Atom) and y.segs[0].kind == "rawdigest":
+            hx = SBytes((Atom("hex", y.segs[0].payload),))
+            if x.is_concrete():
+                return content_eq(SBytes.of(x.concrete().hex().encode()), hx, ctx)
+            if len(x.segs) == 1 and isinstance(x.segs[0], Atom) and x.segs[0].kind == "rawdigest":
+                return digest_eq(x.segs[0].payload, y.segs[0].payload, ctx)
     # concrete digest text versus the digest atom of symbolic content (ideal hash)
     for x, y in ((c1, c2), (c2, c1)):
         if len(y.segs) == 1 and isinstance(y.segs[0], Atom) and y.segs[0].kind in ("hex", "b64") \
